@@ -124,6 +124,8 @@ func RunPipeline(seed int64, tier, driver, outDir string, n int, search bool, co
 		// stays, the activity does not
 		cases = append(cases, Case{Seed: 22, Tag: "swap", Shallow: true, Ops: []string{"loc:add:a", "wait", "loc:add:d", "wait"}})
 		cases = append(cases, Case{Seed: 23, Tag: "swap", Ops: []string{"loc:add:a", "wait", "loc:add:d", "wait"}})
+		cases = append(cases, Case{Seed: 24, Tag: "cut", Ops: []string{"loc:add:a", "wait", "cut:+b:+c", "wait", "loc:add:d", "wait", "cli:add:b", "wait"}})
+		cases = append(cases, Case{Seed: 25, Tag: "cut", Shallow: true, Ops: []string{"loc:add:a", "cli:add:c", "wait", "cut:-a:+d", "loc:add:b", "wait", "cut", "cli:rem:c", "wait"}})
 		cases = append(cases, Case{Seed: 17, Tag: "config", Allowed: true, Ops: []string{"loc:add:d", "loc:add:a", "wait", "cli:add:b", "loc:rem:d", "wait"}})
 		cases = append(cases, Case{Seed: 18, Tag: "config", Skipped: true, Ops: []string{"loc:add:d", "loc:add:b", "wait", "cli:add:c", "loc:rem:d", "wait"}})
 		cases = append(cases, Case{Seed: 19, Tag: "config", NoSchema: true, Ops: []string{"loc:add:a", "cli:add:b", "wait", "cli:rem:a", "loc:add:c", "wait"}})
@@ -168,7 +170,7 @@ func RunPipeline(seed int64, tier, driver, outDir string, n int, search bool, co
 		}
 	}
 	failSeen := map[string]bool{}
-	pushes, replies, syncs, reorders, drops, climuts := 0, 0, 0, 0, 0, 0
+	pushes, replies, syncs, reorders, drops, climuts, cuts := 0, 0, 0, 0, 0, 0, 0
 	for i, run := range runs {
 		c := cases[i]
 		res.Cases++
@@ -179,6 +181,7 @@ func RunPipeline(seed int64, tier, driver, outDir string, n int, search bool, co
 		syncs += run.Syncs
 		drops += run.SyncDrops
 		climuts += run.CliMuts
+		cuts += run.Cuts
 		reorders += run.Reorders
 		if run.Pushes+run.Replies > 1 {
 			res.DistinctNontrivial++
@@ -231,7 +234,7 @@ func RunPipeline(seed int64, tier, driver, outDir string, n int, search bool, co
 			res.Failures = append(res.Failures, core.FailRec{Prop: "C09", Msg: msg, File: file})
 		}
 	}
-	res.Extra = map[string]any{"pushes": pushes, "replies": replies, "full_syncs": syncs, "sync_answers_dropped": drops, "client_mutations_judged": climuts, "out_of_order_deliveries": reorders}
+	res.Extra = map[string]any{"pushes": pushes, "replies": replies, "full_syncs": syncs, "sync_answers_dropped": drops, "client_mutations_judged": climuts, "connection_cuts": cuts, "out_of_order_deliveries": reorders}
 	res.WallS = time.Since(t0).Seconds()
 	return res
 }
